@@ -95,6 +95,7 @@ partial def rwTrOfJson (j : Json) : Except String Tr := do
     let (fsc, gate) ← rwGroupOfJson j
     pure (.renameGated gate (scopedMap fsc m))
   | "kw2field" => do pure (.kwToField (← getStr j "g"))
+  | "kw2fields" => do pure (.kwToFields (← rwStrListOfJson (← j.getObjVal? "gs")))
   | "drop" => do pure (.drop (← rwGroupOfJson j).2)
   | "addCond" => do
     let items ← (← (← j.getObjVal? "items").getArr?).toList.mapM rwKvOfJson
@@ -106,12 +107,21 @@ partial def rwTrOfJson (j : Json) : Except String Tr := do
   | "addFields" => do let fs ← rwStrListOfJson (← j.getObjVal? "fields"); pure (.fieldsList (addFields fs))
   | "removeFields" => do let fs ← rwStrListOfJson (← j.getObjVal? "fields"); pure (.fieldsList (removeFields fs))
   | "setFields" => do let fs ← rwStrListOfJson (← j.getObjVal? "fields"); pure (.fieldsList (setFields fs))
+  | "hashes" => do
+    let byLen ← (← (← j.getObjVal? "byLength").getArr?).toList.mapM fun e => do
+      let a ← e.getArr?
+      pure ((← (a.getD 0 Json.null).getNat?), (← strOfJson (a.getD 1 Json.null)))
+    let cfg : HashCfg := { algos := ← rwStrListOfJson (← j.getObjVal? "algos"), pfx := ← getStr j "pfx",
+                           dropAlgo := getBoolD j "drop" false, fields := ← rwStrListOfJson (← j.getObjVal? "fields"),
+                           byLength := byLen }
+    pure (.hashes cfg (← rwGroupOfJson j).2)
   | "nest" => do pure (.nest (← (← (← j.getObjVal? "items").getArr?).toList.mapM rwTrOfJson))
   | t => throw s!"bad transformation {t}"
 
 def rwRwErrJson : RwErr → Json
   | .emptied n => Json.mkObj [("rwErr", "emptied"), ("name", strToJson n)]
   | .notExpressible w => Json.mkObj [("rwErr", "notExpressible"), ("detail", w)]
+  | .noValidHash => Json.mkObj [("rwErr", "noValidHash")]
 
 def rewriteCase (j : Json) : Except String Json := do
   let dets ← (← (← j.getObjVal? "dets").getArr?).toList.mapM fun d => do
